@@ -28,4 +28,12 @@ def obligations(tier):
                               tier="quick" if q else "thorough", family="reject-" + VNAME[v],
                               desc="decrypt of arbitrary (c, tag=correct^delta): accept <=> delta == 0; failure: mlen=0, output untouched or zeroed; clen<16 rejected; NULL-output mode same verdict",
                               bounds="all key/nonce/ciphertext/ad/tag bytes; clen and adlen enumerated (quick 11x4, thorough 0..56 x 0..33)"))
+    for v in (0, 1):
+        for cl in range(0, 97):
+            q = cl in (0, 1, 15, 16, 17, 47, 48, 49, 80, 96)
+            obs.append(Ob("reject-secretbox-%s-c%d" % (SBNAME[v], cl), "C02/secretbox.c", units=SB_UNITS[v] + GLUE_UNITS,
+                          stubs=GLUE_STUBS, defs={"SBVAR": v, "CLEN": cl}, unwind=130, timeout=300,
+                          tier="quick" if q else "thorough", family="reject-secretbox-" + SBNAME[v],
+                          desc="secretbox open_easy/open_detached/NaCl open on arbitrary box: accept <=> tag delta == 0; output untouched on rejection; clen<16 rejected",
+                          bounds="all key/nonce/box bytes; clen enumerated (quick 10 values, thorough 0..96)"))
     return obs
